@@ -388,7 +388,7 @@ def parse_handler(src_all, name, states, stack=()):
     for pos, kind in loops:
         events.append((pos, ("attrs", name)))
         loop_kind = kind
-    for m in re.finditer(r"(\breturn\s+|\bif\s*\(\s*)?\bprocess_(\w+)\s*\(\s*atts\s*\)\s*(\)\s*return\b[^;]*;|;)", body):
+    for m in re.finditer(r"(\breturn\s+|\bif\s*\(\s*)?\bprocess_(\w+)\s*\(\s*atts\s*(?:,\s*true\s*)?\)\s*(\)\s*return\b[^;]*;|;)", body):
         callee = m.group(2)
         pre, post = (m.group(1) or "").strip(), m.group(3)
         if pre.startswith("return"):
